@@ -868,7 +868,44 @@ def r64(orig, rule):
     return 'match bitset_max(&%s) { Some(%s) => { let __r = Some(%s as u8); __r } None => { None } }' % (e, x, x)
 
 
+def r55b(orig, rule):
+    # for &X in E.iter() {   or   for &X in &E {     ->   for __rX in E.iter() { let X = *__rX;      (as R55; `&E` iterates like `E.iter()`)
+    s = norm(orig)
+    try:
+        m = _m(r'for & (%s) in (%s) \. iter \( \) \{' % (ID, ID), s)
+    except NoMatch:
+        m = _m(r'for & (%s) in & (%s) \{' % (ID, ID), s)
+    x, e = m.groups()
+    return 'for __r%s in %s.iter() { let %s = *__r%s;' % (x, e, x, x)
+
+
+def r65(orig, rule):
+    # let X = E.get(&K).cloned().unwrap_or(D);   ->   let X = match E.get(&K) { Some(__v) => *__v, None => D };
+    # (Option::cloned on a reference to a Copy value copies it out; unwrap_or is the match)
+    s = norm(orig)
+    m = _m(r'let (%s) = (.+?) \. get \( & (%s) \) \. cloned \( \) \. unwrap_or \( (.+) \) ;' % (ID, ID), s)
+    x, e, k, d = m.groups()
+    return 'let %s = match %s.get(&%s) { Some(__v) => *__v, None => %s };' % (x, e, k, d)
+
+
+def r66(orig, rule):
+    # E.to_owned()   (E a slice of Copy pairs)   ->   pairs_to_vec(E)        (stub: a Vec with the same elements)
+    s = norm(orig)
+    m = _m(r'(.*) = (%s) \. to_owned \( \) ;' % ID, s)
+    pre, e = m.groups()
+    return '%s = pairs_to_vec(%s);' % (pre, e)
+
+
+def r67(orig, rule):
+    # let mut A = B.clone();   (B a Vec of Copy pairs)   ->   let mut A = pairs_clone(&B);     (stub: a Vec with the same elements)
+    s = norm(orig)
+    m = _m(r'let mut (%s) = (%s) \. clone \( \) ;' % (ID, ID), s)
+    a, b = m.groups()
+    return 'let mut %s = pairs_clone(&%s);' % (a, b)
+
+
 GENERATORS = {
+    'R55b': r55b, 'R65': r65, 'R66': r66, 'R67': r67,
     'R63': r63, 'R64': r64,
     'R62': r62,
     'R61': r61,
